@@ -176,3 +176,17 @@ func reportBuildProblem(c *fw.Ctx, m *rec.Rec, b *built) bool {
 	}
 	return false
 }
+
+// withBundleProps adds experimenter properties to a bundle-add recipe. Only wire-first checks use it: the library
+// has no API to give a property a payload, but its parser accepts them. Lengths are multiples of 8 (the library does
+// not skip property padding; unpadded lengths are what both conventions agree on).
+func withBundleProps(r *prng.R, m *rec.Rec) *rec.Rec {
+	if m == nil || m.K != "bundle_add" || !r.Chance(2, 3) {
+		return m
+	}
+	for n := r.Pick(1, 1, 2, 3); n > 0; n-- {
+		body := append(r.Bytes(8), r.Bytes(r.Pick(4, 12, 20, 4))...)
+		m.Add("properties", rec.New("bundle_property").Set("type", 0xffff).SetB("body", body))
+	}
+	return m
+}
